@@ -24,6 +24,11 @@ def tuple_of(cid, fq):
     return (f, (k + fq[f]) % 5, s, res)
 
 
+# first quintant per face as documented for the reference layout (QUINTANT_FIRST read through ORIGIN_ORDER); the stored quintant
+# code of segment sg on face f is (sg + 5 - FQ[f]) % 5.  Kept as literals on purpose: the oracle must not learn the layout from the code under test.
+FQ = [4, 2, 3, 0, 2, 4, 2, 2, 3, 0, 3, 0]
+
+
 def oracle(q, a):
     """property verdict on one implementation response (None = fine)"""
     t = q.split()
@@ -44,6 +49,8 @@ def oracle(q, a):
                 return f"encoded resolution {r} reads back as {d[0]}"
             if r >= 1 and d[1] // 5 != o:
                 return "face bits wrong"
+            if r >= 1 and d[1] % 5 != (sg + 5 - FQ[o]) % 5:
+                return f"quintant code in the six leading bits is {d[1] % 5}, the documented layout says {(sg + 5 - FQ[o]) % 5} for segment {sg} of face {o}"
             if r == 0 and d[1] != o:
                 return "face bits wrong"
             if r >= 2:
@@ -56,6 +63,16 @@ def oracle(q, a):
             return f"valid cell rejected: {a}"
     elif a in ("panic", "abort", "hang", "lost"):
         return f"{op} did not return normally: {a}"
+    elif op == "deserialize":
+        d = spec.decode(int(t[1]))
+        if d is not None and d[0] >= 0:
+            want = tuple_of(int(t[1]), FQ)
+            if a != "ok " + " ".join(map(str, want)):
+                return f"canonical id decodes to {a}, the documented layout says {want}"
+    elif op == "get_resolution":
+        d = spec.decode(int(t[1]))
+        if d is not None and a != f"ok {d[0]}":
+            return f"resolution of a canonical id read as {a}, encoded {d[0]}"
     elif op == "u64_to_hex":
         n = int(t[1])
         if not a.startswith("ok "):
